@@ -228,7 +228,9 @@ class CipherScenario(Scenario):
             rec.probe("roundtrip" + (":later-session" if it["session"] != st.session else "") + ":" + via)
         else:
             rec.probe("decrypt-under-other-key:" + it["method"])
-            if err is None and out == it["pt"] and it["pt"]:
+            # the statement claims this for AES; XOR under another key that shares a prefix with the right one
+            # returns a short plaintext unchanged, by construction
+            if err is None and out == it["pt"] and it["pt"] and it["method"] == "aes":
                 rec.fail("C08/other-key", "C08/other-key-yields-plaintext/%s" % it["method"], "a different key decrypted the value to the plaintext")
 
     def do_tamper(self, st, op, rec):
